@@ -13,7 +13,10 @@ import (
 // C06 — a Condition holds exactly what it accepted, and validity gates its rendering (Engine A).
 
 type condInst struct {
-	pending []string // discrepancies noticed while an operation ran (reported by Apply)
+	pending []string           // discrepancies noticed while an operation ran (reported by Apply)
+	by      stackage.Condition // a bystander that is never passed to any call
+	byWant  string
+	hasBy   bool
 	c       stackage.Condition
 	live    bool // constructed (Cond or Init)
 	kw      string
@@ -144,12 +147,13 @@ type condOp struct {
 	run     func(in *condInst)
 }
 
-func c06Ops() []condOp {
+func c06Ops(variant ...string) []condOp {
 	var ops []condOp
+	deepEnc := len(variant) > 0 && variant[0] == "encapsulation"
 	live := func(in *condInst) bool { return in.live }
 	blank := func(in *condInst) bool { return !in.live }
 	reset := func(in *condInst) {
-		*in = condInst{c: in.c, live: true}
+		*in = condInst{c: in.c, live: true, by: in.by, byWant: in.byWant, hasBy: in.hasBy}
 	}
 	exs := c06Expressions()
 	for _, kw := range c06Keywords() {
@@ -243,14 +247,59 @@ func c06Ops() []condOp {
 		condOp{"SetErr(e)", live, func(in *condInst) { in.c.SetErr(errUser); in.err, in.ctorEr = errUser, false }},
 		condOp{"SetErr(nil)", live, func(in *condInst) { in.c.SetErr(nil); in.err, in.ctorEr = nil, false }},
 	)
-	return ops
+	if !deepEnc {
+		return ops
+	}
+	// the encapsulation machine: a small alphabet around one valid Condition, but every scheme (single
+	// characters, pairs, two schemes in one call) in every order, up to five layers deep
+	var keep []condOp
+	for _, o := range ops {
+		switch {
+		case o.name == `Cond("k",Eq,"v")`, o.name == `SetExpression(7)`, o.name == `SetExpression(Or(a))`, strings.HasPrefix(o.name, "SetEncap"), strings.HasPrefix(o.name, "SetParen"), strings.HasPrefix(o.name, "SetNoPadding"):
+			keep = append(keep, o)
+		}
+	}
+	addEnc := func(name string, schemes [][]string, args ...any) {
+		keep = append(keep, condOp{name, live, func(in *condInst) {
+			in.c.SetEncap(args...)
+			for _, sc := range schemes {
+				used := false
+				for _, ch := range sc {
+					if inUse(in.enc, ch) {
+						used = true
+					}
+				}
+				if !used {
+					in.enc = append(in.enc, sc)
+				}
+			}
+		}})
+	}
+	addEnc("SetEncap(')", [][]string{{"'"}}, "'")
+	addEnc("SetEncap([< >])", [][]string{{"<", ">"}}, []string{"<", ">"})
+	addEnc("SetEncap([[ ]])", [][]string{{"[", "]"}}, []string{"[", "]"})
+	addEnc("SetEncap(|,[{ }])", [][]string{{"|"}, {"{", "}"}}, "|", []string{"{", "}"})
+	return keep
 }
 
-func c06Machine(c *Ctx) *Machine[*condInst] {
-	ops := c06Ops()
+func c06Machine(c *Ctx, variant ...string) *Machine[*condInst] {
+	ops := c06Ops(variant...)
+	name := "C06 condition"
+	if len(variant) > 0 && variant[0] != "" {
+		name += " " + variant[0]
+	}
 	return &Machine[*condInst]{
-		Name:    "C06 condition",
-		New:     func() *condInst { return &condInst{} },
+		Name: name,
+		// the small machine runs one transition at a time and watches a bystander Condition
+		Sequential: len(variant) > 0 && variant[0] == "encapsulation",
+		New: func() *condInst {
+			if len(variant) == 0 || variant[0] != "encapsulation" {
+				return &condInst{}
+			}
+			// the bystander went through reset-then-set itself (it too owns "a slice that was emptied once")
+			by := stackage.Cond("by", stackage.Eq, "stander").SetEncap(`"`).SetEncap().SetEncap("'")
+			return &condInst{by: by, byWant: by.String(), hasBy: true}
+		},
 		NumOps:  len(ops),
 		OpName:  func(in *condInst, i int) string { return ops[i].name },
 		Enabled: func(in *condInst, i int) bool { return ops[i].enabled(in) },
@@ -274,6 +323,11 @@ func c06Machine(c *Ctx) *Machine[*condInst] {
 			}
 			if got := cd.Expression(); got != in.ex {
 				bad("Expression:"+cls, "Expression()=%v (%T) want %v (%T)", got, got, in.ex, in.ex)
+			}
+			if !in.hasBy {
+				// no bystander in the parallel machine
+			} else if got := in.by.String(); got != in.byWant {
+				bad("bystander-changed:"+cls, "another Condition, never passed to any call, now renders %q instead of %q", got, in.byWant)
 			}
 			gerr := cd.Err()
 			switch {
@@ -334,10 +388,13 @@ func c06Machine(c *Ctx) *Machine[*condInst] {
 
 func init() {
 	register(&Check{ID: "C06", Engine: "A", Run: func(c *Ctx) {
+		me := c06Machine(c, "encapsulation")
+		ste := BFS(c, me)
 		m := c06Machine(c)
 		st := BFS(c, m)
-		c.Exhaustive = st.Complete
-		c.Rule = "BFS to fix-point: from a blank start every Cond(kw,op,ex) over 6 keywords x 8 operators x 9 expressions and Init(); from every reachable Condition state every SetKeyword/SetOperator/SetExpression over the same alphabets, set/clear of no-nesting, no-padding, parenthetical, SetEncap, SetErr(e)/SetErr(nil); non-trivial = distinct (state, setter) pairs"
+		c.Exhaustive = st.Complete && ste.Complete
+		c.Sample(map[string]any{"machine": me.Name, "states": ste.States, "transitions": ste.Transitions, "ops": me.NumOps, "depth": ste.MaxDepth})
+		c.Rule = "BFS to fix-point: from a blank start every Cond(kw,op,ex) over 6 keywords x 8 operators x 9 expressions and Init(); from every reachable Condition state every SetKeyword/SetOperator/SetExpression over the same alphabets, set/clear of no-nesting, no-padding, parenthetical, SetEncap, SetErr(e)/SetErr(nil); a second machine around one valid Condition with six encapsulation schemes (single characters, pairs, two in one call) in every order and depth, parenthetical / no-padding, three expressions; every transition also on an observed history; a bystander Condition configured through reset-then-set keeps its rendering; non-trivial = distinct (state, setter) pairs"
 		c.Bound["ops"] = m.NumOps
 		c.Bound["bfs_depth"] = st.MaxDepth
 		c.Sample(map[string]any{"machine": m.Name, "states": st.States, "transitions": st.Transitions, "ops": m.NumOps, "depth": st.MaxDepth})
@@ -345,6 +402,10 @@ func init() {
 	}, Replay: func(c *Ctx, raw json.RawMessage) {
 		var hc histCase
 		json.Unmarshal(raw, &hc)
+		if strings.HasSuffix(hc.Machine, " encapsulation") {
+			replayHistory(c, c06Machine(c, "encapsulation"), hc.History, hc.Observed)
+			return
+		}
 		replayHistory(c, c06Machine(c), hc.History, hc.Observed)
 	}})
 }
